@@ -141,6 +141,9 @@ def check(repo: Repo) -> Result:
         c03.em_apply(repo, t_, "C03-R4")
 
     share(res, r6, "C03", _route, ["C03-R4"], want=lambda k: k.startswith("em-route:"), min_keys=2)
+
+    r7 = res.rule("C15-R7", "add_constants expresses each constant in the registry's system with in_base(): that route multiplies by the factor and subtracts the offset of the same conversion on every path (Tcmb in a system whose temperature unit has an offset; shared with C03-R2)", floor=2)
+    share(res, r7, "C03", lambda t: c03.apply_idiom(repo, t), ["C03-R2"], want=lambda k: k in ("in_base", "in_base:result"), min_keys=2)
     return res
 
 
@@ -238,4 +241,5 @@ MUTANTS = [
     Mutant("swallow-all", US, "add_constants", "            except UnitsNotReducible:\n                pass", "            except Exception:\n                pass", ("C15-R5",)),
     Mutant("twin-spelling", RAT, None, "hbar_mks = 0.5 * planck_mks / np.pi", "hbar_mks = planck_mks / (2.0 * np.pi)", (), benign=True),
     Mutant("em-own-family-scaled", UO, "_check_em_conversion", "em_map = (unit_system[unit.dimensions], unit, 1.0)", "em_map = (unit_system[unit.dimensions], unit, em_info[2])", ("C15-R6",)),
+    Mutant("in-base-offset-from-source", "unyt/array.py", "unyt_array.in_base", "        ret = self.v * conv\n        if offset:", "        ret = self.v * conv\n        if self.units.base_offset:", ("C15-R7",)),
 ]
